@@ -2,7 +2,7 @@ SPECIFICATION Spec
 CONSTANTS
   NonceLen = 16
   MaxEnv = 16384
-  Nums = {5, 6, 9, 12}
+  Nums = {9, 12}
   MaxFields = 3
   Fanout = 0
   ExportMin = 99
